@@ -138,6 +138,23 @@ let check schedf obsf resf =
   let seen = Hashtbl.create 64 in
   (try while true do
     let l = input_line ic in
+    if String.length l > 5 && String.sub l 0 5 = "(c16x" then begin
+      (* scenarios beside the schedules: the direct oracles only *)
+      incr total;
+      let id = List.nth (split_ws l) 1 and cls = List.nth (split_ws l) 2 in
+      Hashtbl.replace seen ("extra " ^ id) ();
+      let nc = int_of_string (between l "nc") in
+      let final = between l "final" in
+      let panicked = between final "panic" <> "0" in
+      let closers_returned = int_of_string (between final "returned") in
+      let serve_nil = between final "servenil" = "1" in
+      let hang = between final "hang" = "1" in
+      if panicked then (incr ofail; Printf.fprintf oc "FAIL %s %s oracle a goroutine of the server panicked\n" id cls)
+      else if closers_returned <> nc then (incr ofail; Printf.fprintf oc "FAIL %s %s oracle only %d of %d Close calls returned although no command handler was running (Close waits for a client that stopped sending / for a listener)\n" id cls closers_returned nc)
+      else if not serve_nil then (incr ofail; Printf.fprintf oc "FAIL %s %s oracle a Serve call did not return nil after Close (its listener was left open / its accept loop still runs)\n" id cls)
+      else if hang then (incr ofail; Printf.fprintf oc "FAIL %s %s oracle Close / Serve did not end within the time-out\n" id cls)
+      else incr okc
+    end else
     if String.length l > 4 && String.sub l 0 4 = "(c16" then begin
       incr total;
       let id = List.nth (split_ws l) 1 in
